@@ -92,6 +92,16 @@ inline u128 tf_intt_iter(EnvCtx& c, u128 U, uint64_t nn, const q120_ntt_step_pre
   return out;
 }
 
+// The tables are read directly by the model.  A library that builds (part of) them on first use is still a correct library as far
+// as C03 / C04 are concerned: run one transform on zeros first, and report whether the tables are there afterwards.
+inline bool ntt_tables_ready(q120_ntt_precomp* pc, bool inverse) {
+  const uint64_t n = pc->n;
+  GBuf z(32 * n, 0);
+  memset(z.p, 0, z.bytes);
+  if (inverse) q120_intt_bb_avx2(pc, (q120b*)z.p); else q120_ntt_bb_avx2(pc, (q120b*)z.p);
+  return pc->level_metadata != 0 && (n < 2 || pc->powomega != 0);
+}
+
 inline EnvResult envelope_ntt(const q120_ntt_precomp* pc, bool inverse) {
   EnvResult R;
   const uint64_t n = pc->n;
